@@ -79,9 +79,9 @@ func genOptSpec(t *rapid.T, label string) CfgSpec {
 	s.Ext = rapid.SampledFrom([]string{"", "", ".txt", ".json", "json", "_golden"}).Draw(t, label+"ext") // (an Ext is appended as it is, dot or not)
 	switch rapid.IntRange(0, 3).Draw(t, label+"upd") {
 	case 0:
-		s.Update = boolp(true)
+		s.Update = vhBoolp(true)
 	case 1:
-		s.Update = boolp(false)
+		s.Update = vhBoolp(false)
 	}
 	s.JSON = rapid.SampledFrom(jsonCfgPool).Draw(t, label+"json")
 	return s
@@ -218,7 +218,7 @@ func runC12From(c c12Case, shared bool, from int) (c12Obs, error) {
 		return obs, fmt.Errorf("only one of the two witness entries exists in %q: %s", mp, describeEntries(es))
 	}
 	if es[i1].Body != es[i2].Body {
-		return obs, fmt.Errorf("the same document through the same Config is stored differently before and after the call sequence (a call changed the Config or package-level state):\nbefore %q\nafter  %q", clip(string(es[i1].Body)), clip(string(es[i2].Body)))
+		return obs, fmt.Errorf("the same document through the same Config is stored differently before and after the call sequence (a call changed the Config or package-level state):\nbefore %q\nafter  %q", vhClip(string(es[i1].Body)), vhClip(string(es[i2].Body)))
 	}
 	s1 := obs.dir[spec.standalonePath("TestWitnessBefore", 1, true)].Data
 	s2 := obs.dir[spec.standalonePath("TestWitnessAfter", 1, true)].Data
@@ -226,7 +226,7 @@ func runC12From(c c12Case, shared bool, from int) (c12Obs, error) {
 		s2 = s1 // a fixed Filename maps both witnesses to the same standalone file
 	}
 	if s1 != s2 {
-		return obs, fmt.Errorf("the same document through the same Config is stored differently (standalone) before and after the call sequence:\nbefore %q\nafter  %q", clip(s1), clip(s2))
+		return obs, fmt.Errorf("the same document through the same Config is stored differently (standalone) before and after the call sequence:\nbefore %q\nafter  %q", vhClip(s1), vhClip(s2))
 	}
 	return obs, nil
 }
@@ -300,7 +300,7 @@ func classifyC12(c c12Case) ([]string, bool) {
 		cls = append(cls, "json_option_overridden_in_b")
 		nt = true
 	}
-	return uniq(cls), nt
+	return vhUniq(cls), nt
 }
 
 func TestC12_ConfigImmutable(t *testing.T) {
@@ -417,8 +417,8 @@ func checkC06Race(c c06RaceCase) error {
 	if c.SharedMatchers {
 		rt := &matcherRT{}
 		shared = []bothMatcher{
-			rt.build(MatcherSpec{Kind: "any", Paths: []string{"$.metadata.uid", "metadata.uid", "$.a", "a", "$.k1", "k1"}, ErrMissing: boolp(false)}),
-			rt.build(MatcherSpec{Kind: "type", TypeName: "any", Paths: []string{"$.name", "name", "$.id", "id"}, ErrMissing: boolp(false)}),
+			rt.build(MatcherSpec{Kind: "any", Paths: []string{"$.metadata.uid", "metadata.uid", "$.a", "a", "$.k1", "k1"}, ErrMissing: vhBoolp(false)}),
+			rt.build(MatcherSpec{Kind: "type", TypeName: "any", Paths: []string{"$.name", "name", "$.id", "id"}, ErrMissing: vhBoolp(false)}),
 		}
 	}
 	run := func(mode Mode, variant int) {
